@@ -137,7 +137,7 @@ class FnView(object):
         for t in x.targets:
           if isinstance(t, ast.Name) and t.id == name:
             out.append(x.value)
-          elif isinstance(t, ast.Tuple):
+          elif isinstance(t, (ast.Tuple, ast.List)):
             for i, e in enumerate(t.elts):
               if isinstance(e, ast.Name) and e.id == name:
                 out.append(('tuple', i, x.value))
